@@ -304,7 +304,8 @@ JUNK = ["sin", "[1,2", "1 +", "()", "[]", "[[]]", "(())", "( )", "abc", "$x", "1
         "\xb2", "1\xa0", "\xa01", "\x1c1", "1\x1f", ",", ";", ",,", "(,)", "[;]", ")(", "][", "(1", "1)", "(1]", "[1)",
         "1,", ",1", "1__0", "_1", "1_", "+ 1", "\xe9", "1\xa02", "lambda: 1", "print", "{1}", "1 if 1 else 2", "-", "*", "="]
 QUOTED = ['"1"', "'2'", '"None"', '"Auto"', '" 5 "', "'1' '2'", '"1,2"', '"1;2"', "'true'", '"yes"', '"1 " 2', '""', '" "',
-          '"1" None', '"[1" "2]"', "'(1' 2)", '"1\\"2"', '"no ne"']
+          '"1" None', '"[1" "2]"', "'(1' 2)", '"1\\"2"', '"no ne"', '" True "', '" false "', '" Auto "', '" none "',
+          '"\tauto\t"', "' TRUE'", '"None "', '" 1_0 "', '"\xa0AUTO\x1f"', '" yes "', '"on "']
 BIGDIG = ["1" * 4300, "1" * 4301, "10**4299", "10**4300", "-10**4300", "10**4299+1.0"]
 
 SEPS = [" ", ",", ", ", ";", " ; ", ",,", " ,", ";;", "  "]
@@ -481,14 +482,14 @@ class FromWords(Stream):
             stride = 7
             for ti, ty in enumerate(grid):
                 for xi, tx in enumerate(texts):
-                    if (xi + ti) % stride == 0:
+                    if (xi + ti) % stride == 0 or ty[0] == "bool":
                         yield [ty, tx, "v"]
             nrand = 3000
         else:
             stride = 12
             for ti, ty in enumerate(grid):
                 for xi, tx in enumerate(texts):
-                    if (xi + ti) % stride == 0:
+                    if (xi + ti) % stride == 0 or ty[0] == "bool":
                         yield [ty, tx, "v"]
             nrand = 80000
         ip, ib, fp_, il = (["int", None, None, True], ["int", None, "3", True], ["float", None, None, True],
